@@ -76,13 +76,26 @@ func (x *run) waitApplied(limit int, d time.Duration) bool {
 	return false
 }
 
-func (x *run) replaceAll() {
+func (x *run) replaceAll() { x.replaceAllWith(nil) }
+
+// replaceAllWith kills every worker, runs between (e.g. a job restart) and starts as many fresh workers.
+func (x *run) replaceAllWith(between func()) {
 	old := x.cl.NotKilled()
 	for _, w := range old {
 		x.logf("kill %s", w.Name)
 		x.cl.Kill(w)
 	}
 	lib.GCSettle()
+	if between != nil {
+		between()
+	}
+	if lib.Known("in-place-redeploy") {
+		// Known finding (DESIGN §12.5): a replacement that registers while a dead member has not yet expired
+		// joins an assembly with the dead member, that deploy fails half-way and the retry deploys the
+		// replacement a second time in place, which tears nothing down. Until that is repaired the explored
+		// family lets the dead members expire first.
+		x.cl.JobClock.Advance(6 * time.Second)
+	}
 	for range old {
 		w := x.cl.AddWorker()
 		x.logf("start %s", w.Name)
@@ -178,7 +191,17 @@ func c01FullRestart(c *lib.Ctx) {
 			c.Feat("crashes_during_checkpoint", 1)
 		}
 		c.Feat(fmt.Sprintf("crash_mode_%d", mode), 1)
-		x.replaceAll()
+		jobToo := r.Intn(4) == 0
+		x.replaceAllWith(func() {
+			if jobToo {
+				// the job process dies as well and restarts from its storage (LoadCheckpoint picks the newest snapshot)
+				x.logf("job killed and restarted from storage")
+				if err := x.cl.StartJob(); err != nil {
+					x.c.Fail("job-restart-error", x.wit(), "jobs.New on the existing storage: %v", err)
+				}
+				c.Feat("job_restarts", 1)
+			}
+		})
 		x.nudge()
 		x.waitAssigned(k + 2)
 	}
@@ -262,6 +285,7 @@ func kfPartialRedeploy(c *lib.Ctx) {
 	o := runOpts{workers: 2, keyGroups: 16, splits: 2, perSplit: 60, maxSize: 2, maxDelay: time.Millisecond, tsMode: "increasing"}
 	x := newRun(c, o)
 	defer x.close()
+	c.Exclude = nil // this part is the reproducer of the finding the other parts stay out of
 	c.OnPanic = func() any { return x.wit() }
 	ep := x.installEpochSwitch()
 	x.src.SetLimit(30)
